@@ -5,6 +5,7 @@ container ('take:<f>@line' / 'field:<f>').  Events come from sa.paths.
 """
 import ast
 
+from ..model import self_field
 from ..paths import fmt_path, FLAT, NESTED, NONE, OTHER, SCALAR
 
 RULES = {
@@ -19,6 +20,9 @@ RULES = {
     'LINEAR-HOLD': 'each retain in update() is, on every normal path, stored into a metadata container, released, or '
                    'handed to a deferred computation',
     'NO-DOUBLE-REL': 'no token is released twice on one path without being re-acquired (count never negative)',
+    'SCRATCH-SLOT': 'a slot that is only a scratch alias of a buffered entry (table SCRATCH_OVERWRITE: zip_latest.metadata[0], '
+                    'released right after each emission) is never released through the "replace what the slot held" step: that '
+                    'release is taken only when the arriving element does not belong to the slot\'s owner',
     'RETAIN-ONCE': 'node-level _retain_refs uses the default n and happens at most once per update path',
     'EMIT-BALANCE': 'Stream._emit retains len(downstreams) up front and releases exactly once per visited downstream',
     'REMOVE-RELEASES': 'every removal from a metadata container (pop/popleft/get/swap/clear/overwrite) releases what it removed',
@@ -146,6 +150,12 @@ def check_class(ctx, R, cls, rules=None):
                     if e.kind == 'CLOSURE' and has(e.b, 'md'):
                         trig = (i, 'captured by a closure')
                         break
+                    if coro and e.kind == 'EM' and has(e.b, 'md') and any(
+                            x.kind == 'SUS' and has(x.b, 'emit@%d' % e.line) for x in evs[i + 1:]):
+                        # the emitter gives up its own hold as soon as update() has returned its future (EMIT-REL-TIMING), so a
+                        # node that waits for downstream must hold the element itself while it waits
+                        trig = (i, 'emitted and awaited by this coroutine')
+                        break
                     if first_sus is not None and i > first_sus and e.kind in ('EM', 'REL', 'ST', 'DEFER') and has(e.b, 'md'):
                         trig = (i, 'used after a suspension (%s)' % e.kind)
                         break
@@ -170,6 +180,20 @@ def check_class(ctx, R, cls, rules=None):
                         rep('LINEAR-HOLD', 'metadata', ok,
                             'retained, then neither stored nor released nor handed on, on the path [%s]' % conds,
                             evs[rets[0]].line, evs)
+            # ------------------------------------------------------------ SCRATCH-SLOT
+            for i, e in enumerate(evs):
+                if e.kind != 'REL' or not isinstance(e.x.get('arg'), ast.Subscript):
+                    continue
+                a_ = e.x['arg']
+                fld = self_field(a_)
+                if fld is None or (cname, fld) not in SCRATCH_OVERWRITE or isinstance(a_.slice, ast.Constant):
+                    continue
+                R.table('SCRATCH_OVERWRITE', {'%s.%s' % k: v for k, v in SCRATCH_OVERWRITE.items()})
+                guarded = cond_false(evs, i, lambda a: a.replace(' ', '') == 'whoisself.lossless')
+                rep('SCRATCH-SLOT', fld, guarded,
+                    'self.%s[<slot of the arriving element>] is released although the element may belong to the lossless '
+                    'upstream, whose slot content was already released right after its emission: released twice (count below '
+                    'zero, or a still buffered element completed early)' % fld, e.line, evs)
             # ------------------------------------------------------------ NO-DOUBLE-REL
             rels = [(i, e) for i, e in enumerate(evs) if e.kind == 'REL']
             for a in range(len(rels)):
